@@ -11,6 +11,14 @@ BITS = {"uint8_t": (8, False), "uint64_t": (64, False), "Py_UCS4": (32, False), 
         "unsigned char": (8, False), "size_t": (64, False), "unsigned long": (64, False), "short": (16, True)}
 
 
+def _select(iz, data, lo, hi):
+    """data[iz] for lo <= iz <= hi as a balanced decision tree"""
+    if lo == hi or all(isinstance(d, int) and d == data[lo] for d in data[lo:hi + 1]):
+        return ez(data[lo])
+    mid = (lo + hi) // 2
+    return z3.If(iz <= mid, _select(iz, data, lo, mid), _select(iz, data, mid + 1, hi))
+
+
 class CMemoryError(AssertionError):
     """memory-safety violation in the lowered C code (out of bounds, use after free, double free, ...)"""
 
@@ -136,13 +144,12 @@ class C:
         bits, signed = BITS[arr.et]
         lo, hi = (-(1 << (bits - 1)), (1 << (bits - 1)) - 1) if signed else (0, (1 << bits) - 1)
         if isinstance(i, SInt):
-            if arr.n > 64:
+            if arr.n > 4096:
                 raise Unsupported("symbolic index into a large array")
             lo_i, hi_i = max(i.lo, 0), min(i.hi, arr.n - 1)
-            e = ez(arr.data[hi_i])
-            for k in range(hi_i - 1, lo_i - 1, -1):
-                e = z3.If(i.z == k, ez(arr.data[k]), e)
-            vals = [d for d in arr.data[lo_i:hi_i + 1]]
+            vals = arr.data[lo_i:hi_i + 1]
+            # runs of equal concrete entries are merged, the rest is a balanced ite tree on the index
+            e = _select(i.z, arr.data, lo_i, hi_i)
             if all(isinstance(d, int) for d in vals):
                 lo, hi = min(vals), max(vals)
             return SInt(E.bind(e, lo, hi), lo, hi)
